@@ -8,8 +8,10 @@ import (
 	"time"
 
 	goat "github.com/avos-io/goat"
+	"github.com/avos-io/goat/gen/goatorepo"
 	"google.golang.org/grpc"
 	"google.golang.org/grpc/metadata"
+	"google.golang.org/protobuf/types/known/wrapperspb"
 )
 
 // c05HoldFirstTrailer delays the first trailer envelope the server writes until released (the server's
@@ -236,4 +238,91 @@ func c05SlowHandler(r *Run) {
 			}
 		}
 	}
+}
+
+// c05IdsAfterReadFailure: one read error from the transport (which otherwise keeps accepting writes),
+// with a stream still open at the server, and then more calls on the same client connection. Whatever
+// becomes of those calls (they fail), every identifier the connection puts on the wire in its lifetime
+// belongs to ONE call: no id of an earlier call is used again.
+func c05IdsAfterReadFailure(r *Run) {
+	if !r.Want("idsafterfail") {
+		return
+	}
+	in := map[string]any{"history": "unary ok, stream opened, read error, three more unary calls and a stream"}
+	r.Progress("idsafterfail", in)
+	sc := NewScript(0)
+	sc.Out = make(chan *Rpc, 256)
+	cc := goat.NewClientConn(sc, "c", "srv")
+	defer cc.Close()
+	type use struct{ method string }
+	owner := map[uint64]string{}
+	order := []string{}
+	note := func(call string) bool {
+		okAll := true
+		for {
+			select {
+			case e := <-sc.Out:
+				if prev, seen := owner[e.Id]; seen && prev != call {
+					r.Violate("idsafterfail.reuse", "history", "an identifier the connection had used for one call was put on the wire again for another call", in, fmt.Sprintf("id %d: first %s, now %s", e.Id, prev, call), "pairwise distinct ids")
+					okAll = false
+				}
+				owner[e.Id] = call
+			default:
+				return okAll
+			}
+		}
+	}
+	body, _ := goat_marshal(&wrapperspb.BytesValue{Value: []byte("r")})
+	// call 1: a unary call answered by the scripted peer
+	done := make(chan struct{})
+	go func() {
+		defer close(done)
+		ctx, cancel := context.WithTimeout(context.Background(), hangTimeout)
+		defer cancel()
+		callUnary(ctx, cc, []byte("one"))
+	}()
+	var first *Rpc
+	select {
+	case first = <-sc.Out:
+		owner[first.Id] = "call1"
+		sc.In <- &Rpc{Id: first.Id, Header: &goatorepo.RequestHeader{Method: mUnary, Source: "srv", Destination: "c"}, Body: &goatorepo.Body{Data: body}, Trailer: &goatorepo.Trailer{}}
+	case <-time.After(hangTimeout):
+		r.Violate("idsafterfail.setup", "history", "the unary request was not written", in, nil, nil)
+		return
+	}
+	<-done
+	order = append(order, "call1")
+	// call 2: a stream left open
+	sctx, scancel := context.WithCancel(context.Background())
+	defer scancel()
+	cs, err := cc.NewStream(sctx, descBidi, mBidi)
+	if err == nil {
+		sendB(cs, []byte("m"))
+	}
+	time.Sleep(5 * time.Millisecond)
+	note("call2")
+	// the read error
+	sc.FailRead(errInjectedRead)
+	hooks.WaitFor(siteIs("mux.fail", 0), hangTimeout)
+	// later calls
+	for k := 3; k <= 5; k++ {
+		ctx, cancel := context.WithTimeout(context.Background(), 50*time.Millisecond)
+		callUnary(ctx, cc, []byte(fmt.Sprintf("later-%d", k)))
+		cancel()
+		time.Sleep(2 * time.Millisecond)
+		if !note(fmt.Sprintf("call%d", k)) {
+			break
+		}
+	}
+	ctx, cancel := context.WithTimeout(context.Background(), 50*time.Millisecond)
+	if cs2, err := cc.NewStream(ctx, descBidi, mBidi); err == nil {
+		sendB(cs2, []byte("m"))
+	}
+	cancel()
+	time.Sleep(2 * time.Millisecond)
+	note("call6")
+	r.Eval("idsafterfail", true)
+	r.CountN("c05.idsafterfail.ids_seen", len(owner))
+	_ = order
+	_ = use{}
 }
